@@ -36,7 +36,8 @@ def run(ctx, model_ok):
         ctx.cov["samples"] += ss.pop("samples")
         ctx.cov["correspondence_selfint"] = ss
         ctx.cov["rule"] += ("; selfint: segments_intersect_facets (float64 and float32 call, adversarial exact rows + random rows) and get_intersecting_triangles "
-                            "(small meshes, scales 1e-7..1e4, r / r_factor / eps varied) vs Model/MeshIntersect.lean in emulated float32: verdicts, index sets exact, query radius bit for bit")
+                            "(small meshes incl. subdivided box faces, needle-faced boxes, Stella octangula, far-centroid needles; scales 1e-9..1e9, offsets up to 1e7 sizes, r / r_factor / eps varied) "
+                            "vs Model/MeshIntersect.lean (normalisation in float64, then emulated float32): verdicts, index sets exact, query radius bit for bit")
     budget = 4 if len(ctx.broken) else 1
     fails, ost = oracle.sweep(ctx, ctx.scale(16, 600) * budget)
     ctx.failing += fails
@@ -48,11 +49,13 @@ def run(ctx, model_ok):
                             "position and face order) equals the geometric inside predicate of a closed surface — it does not on the planes through the ray start and an edge "
                             "(Props/C02 trimesh_ray_test_misses_interior_point); hence 'consistent => all outwards' "
                             "(needs a correct seed verdict and the orientability of closed non-self-intersecting surfaces): permutation/flip/derived-mesh oracle only",
-                            "check_selfintersecting (ported, tied by the selfint stream): in exact arithmetic sound (segfacet_sound), reindexed by face permutations, "
-                            "translation invariant, covariant under a common factor on lengths AND eps; NOT complete — crossings through an edge/vertex of the other facet, "
-                            "end points within eps of the plane, facet pairs beyond 1.5 x the largest corner distance are never reported (Stella octangula, two spikes: "
-                            "self-intersecting closed meshes reported clean); NOT unit invariant (absolute eps = 1e-6: misses everything below ~1e-6 size, flags valid closed "
-                            "meshes from ~1e2 size on through float32 noise); float32 rounding itself is modelled bit for bit but no theorem is about it",
+                            "check_selfintersecting (the repaired code; ported, tied by the selfint stream): in exact arithmetic the segment/facet primitive reports a pair exactly when both "
+                            "end points are farther than eps from the facet's plane and the segment meets the closed facet (segfacet_iff_closed: sound; complete incl. crossings through an edge "
+                            "or a corner); reindexed by face permutations, translation invariant, unit invariant with eps fixed (selfint_scale_invariant; eps is a fraction of the mesh size, "
+                            "selfint_eps_is_relative); r_factor = 2 reaches every facet pair with a common point, no crossing found by the primitive is lost to the ball query "
+                            "(selfint_radius_covers, selfint_reports_crossing_pair).  NOT shown: that two intersecting facets always have an edge of one meeting the other off its end points — false when end points lie "
+                            "within eps x size of the other facet's plane (segfacet_misses_end_in_facet; octahedron with its equator in a box face: known finding).  float32 rounding is modelled "
+                            "bit for bit but no theorem is about it: needle facets of aspect >~ 1e3 in general position can still be flagged (plane-distance noise of coplanar neighbours above eps)",
                             "check_open: 'open' is the code's own edge count (open_iff_edge_count_ne_2 unfolds the model); its reading as 'number of faces containing both end points' holds for "
                             "faces with three distinct indices only (edge_count_eq_faces_containing); a face (a, a, b) counts its edge twice",
                             "get_disconnected_faces_subsets returns FACE subsets (np.isin(...).all(axis=1)); model and theorems are about the vertex sets subsets_inds, the final face selection "
